@@ -431,6 +431,59 @@ def message_line_sources() -> list[str]:
     return out
 
 
+# ------------------------------------------------------------------ markup locality: tokens(A + B) = tokens(A) ++ tokens(B)
+
+EXPR_ATOMS = ["a", ".", "[", "]", "|", ":", ",", "=", "(", ")", "..", "1", "-1", "1.5", "<", "==", "'", '"', "${", "}", "=>", "-", "'${", "1..2", "(1..2)", "a..", "..b"]
+PROBES = [
+    "{{ (x) }}", "{{ x | f: (a, b) => a }}", "{{ (1..2) }}", "{{ a.b[c] }}", "{{ 'a${b}c' }}", "{% if a %}", "text", "{{ x }}", "{# c #}",
+    "{% raw %}r{% endraw %}", "{% liquid echo (a..b) %}", "{{ 1.5 }}", "{% for i in (1..x) %}", "{{ a[b[c]] }}",
+]
+
+
+def concat_heads() -> list[str]:
+    """Complete markups made of every one or two expression atoms, as an output, a tag, a template string and a line
+    of a liquid tag - whether they make sense or not, as long as the lexer accepts them on their own."""
+    out: list[str] = []
+    bodies = [x for x in EXPR_ATOMS] + [x + " " + y for x in EXPR_ATOMS for y in EXPR_ATOMS]
+    for b in bodies:
+        out += ["{{ " + b + " }}", "{% if " + b + " %}"]
+    for b in EXPR_ATOMS:
+        out += ['{{ "${' + b + '}" }}', "{% liquid echo " + b + "\n%}", "{% assign v = " + b + " %}"]
+    return out
+
+
+def concat_problems(env: Any, head: str, res: ShardResult | None) -> list[str]:
+    """What the lexer makes of a markup does not depend on the markup before it."""
+    problems: list[str] = []
+    try:
+        th = env.tokenize(head)
+    except Exception:  # noqa: BLE001
+        return problems
+    if not th or type(th[-1]).__name__ == "ContentToken":
+        return problems
+    for probe in PROBES:
+        try:
+            tp = env.tokenize(probe)
+        except Exception:  # noqa: BLE001
+            continue
+        if res is not None:
+            res.evaluations += 1
+        try:
+            both = env.tokenize(head + probe)
+        except LiquidError as e:
+            problems.append(f"locality: {probe!r} is accepted on its own and rejected after other markup ({str(e.message)[:40]})")
+            continue
+        except Exception:  # noqa: BLE001
+            continue
+        want = [canon(t, 0) for t in th] + [canon(t, 0) for t in tp]
+        got = [canon(t, 0) for t in both[: len(th)]] + [canon(t, len(head)) for t in both[len(th) :]]
+        if want != got:
+            problems.append(f"locality: {probe!r} is tokenized differently after other markup")
+    if res is not None and problems:
+        res.nontrivial.add(h64(head))
+    return problems
+
+
 def _outcome_class(env: Any, src: str) -> int:
     """What the lexer made of this source: token type sequence or error message (for distinct_outcomes)."""
     import re
@@ -595,6 +648,10 @@ def _plan_impl(tier: str, seed: int):
         shards.append(("mutants", tier, lo, hi))
     nm = sum(1 + 2 * len(s) + (len(s) + 1) * len(inserts) for s in corp_m)
     total += nm
+    heads = concat_heads()
+    for lo, hi in chunks(len(heads), 16):
+        shards.append(("concat", lo, hi))
+    total += len(heads)
     meta = {
         "space_size": total,
         "bounds": {"sigma_len": k, "sigma_size": m, "corpus": len(corp), "mutated_corpus": len(corp_m),
@@ -614,6 +671,13 @@ def run_shard(shard) -> ShardResult:
     elif kind == "corpus":
         _, lo, hi = shard
         run_sources(corpus_cached(_TIER[0])[lo:hi], res)
+    elif kind == "concat":
+        _, lo, hi = shard
+        for head in concat_heads()[lo:hi]:
+            res.cases += 1
+            for env_name, env in get_envs():
+                for p_ in concat_problems(env, head, res):
+                    res.violation(sig_of(p_), {"env": env_name, "source": head, "concat": True}, "a markup is tokenized the same whatever precedes it", p_)
     else:
         _, tier, lo, hi = shard
         corp = corpus_cached(tier)
@@ -649,6 +713,10 @@ def replay(case: dict[str, Any]) -> list[dict[str, Any]]:
     res = ShardResult()
     for env_name, env in get_envs():
         if env_name != case["env"]:
+            continue
+        if case.get("concat"):
+            for p in concat_problems(env, case["source"], None):
+                res.violation(sig_of(p), case, "a markup is tokenized the same whatever precedes it", p)
             continue
         for p in check_source(env_name, env, case["source"], None):
             res.violation(sig_of(p), case, "tokens tile the source; positions inside the source", p)
